@@ -22,13 +22,26 @@ def entry_bits(e):
     return inner(e)
 
 
+def gdt_table_first(I):
+    """the table's two private fields are told apart by type (an array of entries, a count), not by position"""
+    for a in I.facts.get('adts', []):
+        if a['name'] == 'structures::gdt::GlobalDescriptorTable' and len(a['fields']) == 2:
+            return a['fields'][0]['ty'].get('k') == 'array'
+    return True
+
+
+def gdt_parts(v):
+    a, b = v.fields
+    return (a, b) if isinstance(a, Array) else (b, a)
+
+
 def gdt_state(I, MAX, lo=1, hi=None):
     """a GDT with symbolic contents and 1 <= len <= MAX (the invariant every constructor and append preserves)"""
     st = State()
     st.rng['len'] = [(lo, MAX if hi is None else hi)]
     ln = I.reduce_bits(st, BV.sym(64, 'len'))
     tbl = Array('table', mk=lambda nm: entry_of(BV.sym(64, nm)), length=MAX)
-    obj = Struct('structures::gdt::GlobalDescriptorTable', [tbl, ln])
+    obj = Struct('structures::gdt::GlobalDescriptorTable', [tbl, ln] if gdt_table_first(I) else [ln, tbl])
     st.mem[('arg', 'self')] = obj
     return st, obj
 
@@ -79,7 +92,7 @@ def capacity(chk, MAX):
     o = r1(G + 'empty', [], State())
     ok = len(o) == 1 and o[0].kind == 'ret'
     if ok:
-        t, ln = o[0].val.fields
+        t, ln = gdt_parts(o[0].val)
         ok = isinstance(t, Array) and t.length == MAX and not t.elems and t.default is not None and eval_value(entry_bits(t.default), {}) == 0 and eval_value(ln, {}) == 1
     chk.ob('empty', 'empty()%s: MAX null entries, one slot used' % tag, ok, 'paths %r' % (o,), fn_site(I, G + 'empty'))
 
@@ -95,7 +108,7 @@ def capacity(chk, MAX):
     if rets:
         x = rets[0]
         fin = x.st.mem[('arg', 'self')]
-        t, ln = fin.fields
+        t, ln = gdt_parts(fin)
         slots = list(t.elems.values())
         ok = ok and len(slots) == 1 and is_aff(I, x.st, slots[0][0], L(x.st)) and same(entry_bits(slots[0][1]), BV.sym(64, 'v'))
         ok = ok and is_aff(I, x.st, ln, L(x.st, 1, 1)) and is_aff(I, x.st, x.val, L(x.st)) and x.st.rng.get('len') == [(1, MAX - 1)]
@@ -120,7 +133,7 @@ def capacity(chk, MAX):
             if rets:
                 x = rets[0]
                 fin = x.st.mem[('arg', 'self')]
-                t, ln = fin.fields
+                t, ln = gdt_parts(fin)
                 slots = sorted(t.elems.values(), key=lambda iv: 0 if is_aff(I, x.st, iv[0], L(x.st)) else 1)
                 ok = ok and len(slots) == nslots and is_aff(I, x.st, slots[0][0], L(x.st)) and same(entry_bits(slots[0][1]), BV(64, vb))
                 if nslots == 2 and ok:
@@ -152,7 +165,7 @@ def capacity(chk, MAX):
     chk.ob('limit', 'limit()%s = 8 * len - 1 without truncation' % tag, ok, 'paths %r' % (o,), fn_site(I, G + 'limit'))
     st, obj = gdt_state(I, MAX)
     o = r1(G + 'entries', [Ref(('arg', 'self'))], st)
-    ok = len(o) == 1 and o[0].kind == 'ret' and isinstance(o[0].val, Ref) and o[0].val.loc == ('arg', 'self') and o[0].val.path[0] == 0 and o[0].val.path[1][0] == 'sub' and \
+    ok = len(o) == 1 and o[0].kind == 'ret' and isinstance(o[0].val, Ref) and o[0].val.loc == ('arg', 'self') and o[0].val.path[0] == (0 if gdt_table_first(I) else 1) and o[0].val.path[1][0] == 'sub' and \
         eval_value(o[0].val.path[1][1], {}) == 0 and is_aff(I, o[0].st, o[0].val.path[1][2], L(o[0].st))
     chk.ob('limit', 'entries()%s = table[..len]' % tag, ok, 'paths %r' % (o,), fn_site(I, G + 'entries'))
     for meth in ('load_unsafe', 'load'):
@@ -169,7 +182,7 @@ def capacity(chk, MAX):
                 dl = [l for l in chk.facts['layouts'] if l['tys'] == 'structures::DescriptorTablePointer'][0]
                 fi = {f['name']: i for i, f in enumerate(dl['fields'])}
                 lim, base = p.fields[fi['limit']], inner(p.fields[fi['base']])
-                a = 'addr(arg:self.0[0])'
+                a = 'addr(arg:self.%d[0])' % (0 if gdt_table_first(I) else 1)
                 ok = is_aff(I, rets[0].st, lim, L(rets[0].st, 8, -1)) and same(base, BV(64, sl(a, 0, 48) + [lit(a, 47)] * 16))
                 detail = 'pointer {limit %r, base %r}' % (lim, base)
         chk.ob('load', '%s%s executes one `lgdt` on {limit(), address of table[0]}' % (meth, tag), ok, detail, fn_site(I, G + meth))
@@ -237,9 +250,9 @@ def capacity(chk, MAX):
     for rt in (rets if ok else []):
         # exit: returns {table, len = n}
         rv = rt.val
-        ok = ok and same(rv.fields[1], I.resub(rt.st, BV.sym(64, 'n')))
+        ok = ok and same(gdt_parts(rv)[1], I.resub(rt.st, BV.sym(64, 'n')))
         tl = rt.st.mem.get(('L', rt.frame, byname['table']))
-        ok = ok and rv.fields[0] is tl
+        ok = ok and gdt_parts(rv)[0] is tl
     chk.ob('from-raw', 'from_raw_entries%s: asserts (non-empty, first entry zero, len <= MAX) precede a loop from 0 that copies raw[idx] into slot idx; result len = slice length' % tag, ok, detail, fn_site(I, fn_))
     chk.ob('from-raw', 'from_raw_entries%s: panic paths are the three assertions (and unreachable bounds checks)' % tag, bool(pans) and all(x.kind == 'panic' for x in pans), 'paths %r' % ([x.val for x in pans],), fn_site(I, fn_))
 
